@@ -12,30 +12,43 @@ func main() {
 	f := corpus.ByID(os.Args[1])
 	fs, _ := f.Fonts()
 	ft := fs[0]
+	fmt.Println("kern subtables:", len(ft.Kern), "kerx:", len(ft.Kerx))
+	for i, feat := range ft.GPOS.Features {
+		fmt.Println("GPOS feat", i, feat.Tag, feat.LookupListIndices)
+	}
+	for _, s := range ft.GPOS.Scripts {
+		fmt.Printf("GPOS script %s: ", s.Tag)
+		if s.DefaultLangSys != nil {
+			fmt.Print("dflt=", s.DefaultLangSys.FeatureIndices, " req=", s.DefaultLangSys.RequiredFeatureIndex)
+		}
+		for i, l := range s.LangSys {
+			fmt.Print(" lang", s.LangSysRecords[i].Tag, "=", l.FeatureIndices)
+		}
+		fmt.Println()
+	}
+	g1, _ := ft.NominalGlyph('g')
+	g2, _ := ft.NominalGlyph('.')
 	for li, lk := range ft.GPOS.Lookups {
 		for si, st := range lk.Subtables {
-			switch d := st.(type) {
-			case tables.PairPos:
-				switch pp := d.Data.(type) {
-				case tables.PairPosData2:
-					fmt.Printf("lookup %d sub %d PairPos2 flag %x vf %x %x cov=%+v\n", li, si, lk.Flag, pp.ValueFormat1, pp.ValueFormat2, pp.Cov())
-					fmt.Printf("  classdef1=%+v\n  classdef2=%+v\n", pp.ClassDef1, pp.ClassDef2)
-					for g := 16; g <= 21; g++ {
-						_, inCov := pp.Cov().Index(tables.GlyphID(g))
-						c1, ok1 := pp.ClassDef1.Class(tables.GlyphID(g))
-						c2, ok2 := pp.ClassDef2.Class(tables.GlyphID(g))
-						fmt.Printf("  glyph %d cov=%v class1=%d,%v class2=%d,%v\n", g, inCov, c1, ok1, c2, ok2)
-					}
-					for c1 := uint16(0); c1 < 3; c1++ {
-						for c2 := uint16(0); c2 < 3; c2++ {
-							func() {
-								defer func() { recover() }()
-								fmt.Printf("  rec[%d][%d]=%+v\n", c1, c2, pp.Record(c1, c2))
-							}()
-						}
+			if pp, ok := st.(tables.PairPos); ok {
+				if idx, ok := pp.Data.Cov().Index(tables.GlyphID(g1)); ok {
+					switch d := pp.Data.(type) {
+					case tables.PairPosData1:
+						fmt.Printf("lookup %d/%d PairPos1 covers g idx=%d\n", li, si, idx)
+						_ = d
+					case tables.PairPosData2:
+						c1, _ := d.ClassDef1.Class(tables.GlyphID(g1))
+						c2, ok2 := d.ClassDef2.Class(tables.GlyphID(g2))
+						fmt.Printf("lookup %d/%d PairPos2 covers g class1=%d class2=%d,%v rec=%+v\n", li, si, c1, c2, ok2, d.Record(c1, c2).ValueRecord1)
 					}
 				}
 			}
+		}
+	}
+	for i, k := range ft.Kern {
+		fmt.Printf("kern %d: %T\n", i, k.Data)
+		if k0, ok := k.Data.(interface{ KernPair(a, b tables.GlyphID) int16 }); ok {
+			fmt.Println("   pair g.:", k0.KernPair(tables.GlyphID(g1), tables.GlyphID(g2)))
 		}
 	}
 }
